@@ -265,7 +265,7 @@ class LoaderStream(Stream):
                     else:
                         t = env.get_template(rq["name"], context=ctx, **kw)
                         out = t.render()
-                    return {"name": t.name, "source": t.source, "render": out, "path": os.path.relpath(str(t.path), root) if str(t.path).startswith(root) else str(t.path)}
+                    return {"name": t.name, "source": str(t), "render": out, "path": os.path.relpath(str(t.path), root) if str(t.path).startswith(root) else str(t.path)}
 
                 res.append(outcome(go))
             return res
@@ -320,12 +320,14 @@ class AnalyzeStream(Stream):
         def sync():
             env = make_env(case)
             t = env.from_string(case["source"])
-            return {"analysis": _analysis_view(t.analyze()), "tags": _tagview(env.analyze_tags_from_string(case["source"]))}
+            names = sorted(case["partials"])[:2]
+            return {"analysis": _analysis_view(t.analyze()), "tags": [outcome(lambda n=n: _tagview(env.analyze_tags(n))) for n in names + ["nosuch"]]}
 
         def asyn():
             env = make_env(case)
             t = env.from_string(case["source"])
-            return {"analysis": _analysis_view(run_async(lambda: t.analyze_async())), "tags": _tagview(env.analyze_tags_from_string(case["source"]))}
+            names = sorted(case["partials"])[:2]
+            return {"analysis": _analysis_view(run_async(lambda: t.analyze_async())), "tags": [outcome(lambda n=n: _tagview(run_async(lambda: env.analyze_tags_async(n)))) for n in names + ["nosuch"]]}
 
         return {"sync": outcome(sync), "async": outcome(asyn)}
 
@@ -350,10 +352,7 @@ class AnalyzeStream(Stream):
 
 
 def _tagview(ta):
-    try:
-        return {k: {n: sorted(map(tuple, v)) for n, v in getattr(ta, k).items()} for k in ("all_tags", "tags", "unclosed_tags", "unexpected_tags", "unknown_tags")}
-    except Exception:
-        return repr(ta)
+    return {k: {str(n): sorted((s.template_name, s.index) for s in v) for n, v in getattr(ta, k).items()} for k in ("all_tags", "tags", "unclosed_tags", "unexpected_tags", "unknown_tags")}
 
 
 def extra(ctx):
